@@ -119,6 +119,24 @@ def perturb(byte, spec=None):
             pass
     junk = [np.full(sz, byte, np.uint8) for sz in sorted(sizes) for _ in range(8)]
     del junk
+    if 'asan' not in os.environ.get('LD_PRELOAD', ''):
+        # plain build: glibc fills every block it hands out from now on with a byte that differs between the two
+        # executions (M_PERTURB = -6), which also reaches the C++ temporaries (`new T[n]`, malloc) that never pass
+        # through numpy's cache. Under AddressSanitizer its own allocator fills with a constant, hence the plain build.
+        try:
+            _libc().mallopt(-6, 0x5A if byte == 0 else 0xA5)
+        except Exception:
+            pass
+
+
+_LIBC = []
+
+
+def _libc():
+    if not _LIBC:
+        import ctypes
+        _LIBC.append(ctypes.CDLL('libc.so.6'))
+    return _LIBC[0]
 
 
 def run_once(spec, dirty=None):
@@ -139,6 +157,8 @@ def handle(spec):
         if spec.get('twice'):
             r2, _ = run_once(spec, 0xFF)
             out['digest2'] = digest(r2)
+            if 'asan' not in os.environ.get('LD_PRELOAD', ''):
+                _libc().mallopt(-6, 0)
     except BaseException as e:  # noqa
         if isinstance(e, (KeyboardInterrupt, SystemExit)):
             raise
